@@ -79,9 +79,11 @@ def run_solve(year, form_names, inputs, prompt_answers=None):
     s = hsolver.Solver(store, forms.available_forms[year], prompt=None)
     out = {'exception': None, 'solved': None, 'solution': {}, 'unimplemented': [], 'unmet_inputs': {}, 'unmet_fields': {}, 'forms': []}
     crash = {'line': None}
+    attempted = []
     orig_attempt = hsolver.Solver._attempt_field
 
     def attempt(self, field):
+        attempted.append(field.name())
         try:
             return orig_attempt(self, field)
         except BaseException:
@@ -99,6 +101,7 @@ def run_solve(year, form_names, inputs, prompt_answers=None):
         out['unmet_inputs'] = s.unmet_input_dependencies()
         out['unmet_fields'] = s.unmet_field_dependencies()
         out['forms'] = sorted(s.forms)
+        out['attempted'] = sorted(set(attempted))
     except BaseException as e:  # noqa
         import traceback
         tb = traceback.extract_tb(e.__traceback__)
@@ -125,6 +128,11 @@ def eval_expect(exp, out):
     if k == 'exception':
         e = out['exception']
         return e is not None and (exp.get('type') is None or e['type'] in exp['type']) and (exp.get('line') is None or e.get('crash_line') == exp['line']) and (exp.get('lines') is None or e.get('crash_line') in exp['lines'])
+    if k == 'carry_trace':
+        # the carrying line got a value although the line its instruction names was never computed
+        if out['solved'] is not True or exp['line'] not in out['solution']:
+            return False
+        return exp['source'] not in out.get('attempted', [exp['source']]) and exp['source'] not in out['solution']
     if k == 'line_differs':
         # solved value of line differs from an expected decimal by more than tol
         v = out['solution'].get(exp['line'])
@@ -214,6 +222,8 @@ def summarize(out, exp):
         bits.append('exception=%s while attempting %s at %s' % (out['exception']['type'], out['exception'].get('crash_line'), out['exception']['where'][-1:]))
     if 'line' in exp and exp['kind'] != 'exception':
         bits.append('%s=%s' % (exp['line'], out['solution'].get(exp['line'])))
+    if exp.get('kind') == 'carry_trace':
+        bits.append('%s computed: %s' % (exp['source'], exp['source'] in out.get('attempted', [])))
     if out['unimplemented']:
         bits.append('unimplemented=%s' % out['unimplemented'][:4])
     return ' '.join(bits)
